@@ -116,6 +116,19 @@ def run(ctx):
     rng = ctx.rng
     n = 12000 if ctx.thorough else 1500
     items = []          # (op, desc, expected result line or None, norm, parse_op, label)
+    # size ladder: ClientHello bodies of every length from 41 to ~700 bytes (cipher list 0..329 entries x 1 or 2 compression
+    # methods x extension block absent / empty): a fixed-size staging buffer or a size estimate that is off by the two
+    # length bytes of an absent block shows at exactly one or two of these sizes
+    for nc in range(0, 330):
+        for ncomp in (1, 2):
+            for ext in (None, b''):
+                rnd = rng.randbytes(32)
+                ids = [(7 * nc + j) % 65536 for j in range(nc)]
+                comp = list(range(ncomp))
+                desc = '(ClientHello 771 %s none %s %s %s)' % (xb(rnd), core.lst(map(str, ids)), core.lst(map(str, comp)), xo(ext))
+                norm = '(ClientHello 771 %s none %s %s %s)' % (xb(rnd), core.lst(map(str, ids)), core.lst(map(str, comp)), xo(b''))
+                body = b'\x03\x03' + rnd + b'\0' + (2 * nc).to_bytes(2, 'big') + b''.join(i.to_bytes(2, 'big') for i in ids) + bytes([ncomp]) + bytes(comp) + b'\0\0'
+                items.append(('ser_msg', '(Hs %s)' % desc, 'bytes ' + core.hexs(hs_wrap(1, body)), '(Hs %s)' % norm, 'msg_handshake', 'hs/ch_size_ladder'))
     for _ in range(n):
         r = rng.random()
         within = rng.random() < .8
